@@ -354,7 +354,7 @@ def check_scalar64(ctx, P):
     # reduce256 itself stays a call where barrett_reduce256 hands its difference on
     _auto = ssa.auto_inline(P, fn)
     _inl = lambda n: (n.endswith("scalar64::lt") or n.endswith("::mul128") or n.endswith("::shr128") or _auto(n)) and not n.endswith("scalar64::reduce256")
-    r = ssa.Eval(P, fn, inline=_inl, maxdepth=4).run()
+    r = ssa.Eval(P, fn, inline=_inl, maxdepth=4, auto=False).run()
     ret = r.ret
     ok = isinstance(ret, ssa.Agg)
     bad = None
@@ -390,7 +390,7 @@ def check_scalar64(ctx, P):
     ctx.check(ok, "scalar-borrow", S + "reduce256", "t = r - L + borrow * 2^256 limb by limb (M = L), result = borrow ? r : t", "scalar64::reduce256's borrow chain does not compute r - L with the borrow returned at 2^256 (limb widths 56,56,56,56,32): %s" % bad, where=fn.where(), key="scalar-borrow:%sreduce256" % S)
     # barrett_reduce256: out = r1 - r2 + borrow * 2^264 before the two final reductions
     fn = P.fn(S + "barrett_reduce256")
-    r = ssa.Eval(P, fn, inline=_inl, maxdepth=4).run()
+    r = ssa.Eval(P, fn, inline=_inl, maxdepth=4, auto=False).run()
     outs = [c for c in r.calls if c[1].endswith("scalar64::reduce256")]
     ok = len(outs) == 2 and isinstance(outs[0][2][0], ssa.Agg)
     bad = None
